@@ -165,6 +165,7 @@ def jobs(tier, seed):
                 out.append({'name': f'a:{T.version_name(v)}-{lv}[{lo}..{hi}]', 'kind': 'a', 'v': v, 'level': lv, 'lo': lo, 'hi': hi,
                             'cost': (hi - lo) / 8 + 1, 'timeout': 2400})
         out.append({'name': f'b:{T.version_name(v)}', 'kind': 'b', 'v': v, 'tier': tier, 'cost': 20 + 3 * max(v, 0)})
+        out.append({'name': f'r:{T.version_name(v)}', 'kind': 'r', 'v': v, 'cost': 5 + max(v, 0)})
     return out
 
 
@@ -186,6 +187,8 @@ def run_job(spec):
     v = spec['v']
     if spec['kind'] == 'b':
         return job_b(res, enc, consts, v, spec['tier'])
+    if spec['kind'] == 'r':
+        return job_r(res, enc, consts, v)
     lv = spec['level']
     cap = T.data_bits(v, lv)
     L = z3.Int('L')
@@ -293,6 +296,60 @@ def job_b(res, enc, consts, v, tier):
     return res.as_dict()
 
 
+def remainder_modules(enc, consts, v, lv, blocks_of):
+    """real make_final_message (make_blocks' result replaced by `blocks_of`) + matrix + add_codewords -> the modules
+    of the encoding region that follow the last codeword, before masking"""
+    from ref import layout
+    err = None if lv is None else consts.ERROR_MAPPING[lv]
+    real = enc.make_blocks
+    enc.make_blocks = blocks_of(real)
+    try:
+        final = enc.make_final_message(v, err, enc.Buffer([0] * T.data_bits(v, lv)))
+    finally:
+        enc.make_blocks = real
+    n = enc.calc_matrix_size(v)
+    m = enc.make_matrix(n, n)
+    enc.add_finder_patterns(m, n, n)
+    enc.add_alignment_patterns(m, n, n)
+    enc.add_codewords(m, final, v)
+    zz = layout.zigzag(v)
+    ncw = 8 * T.total_codewords(v) - (4 if v in (T.M1, T.M3) else 0)
+    return [m[r][c] for (r, c) in zz[ncw:]], len(zz) - ncw
+
+
+def job_r(res, enc, consts, v):
+    """remainder bits: zero before masking, for arbitrary codewords (make_blocks' output replaced by free bytes of the
+    real block structure - an over-approximation of every real codeword sequence)"""
+    from symx.values import SBA
+    for lv in T.levels_of(v):
+        def blocks_of(real):
+            def stub(ec_infos, buff):
+                d, e = real(ec_infos, buff)
+                k = [0]
+
+                def fresh(blk):
+                    out = SBA([SInt.fresh_word(f'cw{k[0] + i}', 8) for i in range(len(blk))])
+                    k[0] += len(blk)
+                    return out
+                return [fresh(b) for b in d], [fresh(b) for b in e]
+            return stub
+        try:
+            cells, n = remainder_modules(enc, consts, v, lv, blocks_of)
+        except Exception as e:
+            res.obligations += 1
+            res.violation('exception', f'{type(e).__name__}: {e}', {'v': v, 'level': lv, 'L': 0, 'remainder': True})
+            continue
+        res.kinds.add('remainder-bits-zero-before-masking')
+        for i, c in enumerate(cells):
+            ok = (isc(c) and c == 0)
+            res.concrete('remainder-bits-zero-before-masking', ok,
+                         lambda i=i, c=c: res.violation('remainder-bits', f'remainder module {i} of {n} holds {c!r} before masking',
+                                                        {'v': v, 'level': lv, 'L': 0, 'remainder': True}))
+        res.concrete('remainder-bit-count', n == T.remainder_bits(v), None)
+    res.sample({'shape': res.name, 'symbolic': 'all codewords (free bytes)', 'obligation': 'modules after the last codeword are 0 before masking'})
+    return res.as_dict()
+
+
 def judge(v, lv, L, got, data):
     """compare the first `capacity` bits; returns (ok, key)"""
     cap = T.data_bits(v, lv)
@@ -319,6 +376,12 @@ def replay(viol):
     from segno import consts
     inp = viol['input']
     v, lv, L = inp['v'], inp['level'], inp['L']
+    if inp.get('remainder'):
+        try:
+            cells, n = remainder_modules(enc, consts, v, lv, lambda real: real)
+        except Exception as e:
+            return True, f'real functions raised {type(e).__name__}: {e}'
+        return any(c != 0 for c in cells), f'{T.version_name(v)}-{lv}: remainder modules before masking = {list(cells)}'
     data = [(i * 7 + i // 3) % 2 for i in range(L)]
     buff = enc.Buffer(data)
     try:
